@@ -98,7 +98,7 @@ impl Recipe {
     }
 }
 
-fn apply(g: &Graph, nodes: &[Node], s: &Step) -> ciphercore_base::errors::Result<Node> {
+pub fn apply(g: &Graph, nodes: &[Node], s: &Step) -> ciphercore_base::errors::Result<Node> {
     use Step::*;
     let n = |i: &usize| nodes[*i].clone();
     match s {
